@@ -44,7 +44,7 @@ CLAIMED = {
             "real schedules / GIL / lock implementation only enumerated at filesystem yield points", "7 C19"),
     "C20": ("Lean theorems blank_int/float/text, no_derived_attribute, padding_inert + padding_inert_leader_records (dataset summary, radiometric, facility-5, platform-position, map-projection records: records agreeing on live-field bytes give equal output), padding_inert_counted_records (attitude, data quality: only the count and the entries present matter; unused slots, trailing blanks, preamble are inert), padding_inert_volume_directory (file-pointer records are inert), live_fields_only(2), field_locality (13 fixed-size layouts); oracle: nullable fields blanked individually and in subsets, padding rewritten with random content",
             "line records: padding inertness by field_locality + the oracle (the microsecond stamp depends on a second field)", "7 C20"),
-    "C18": ("Lean theorems truncated_image (for arbitrary bytes: short file => error or fewer than n records), complete_image, missing_summary; whole-product correspondence on damaged products (error classes of truncated / removed / corrupted files); truncation/missing-file oracle over every record boundary +-1 x rpc",
+    "C18": ("Lean theorems records_within_file / cut_file_never_complete (layout-based reader: returned records lie inside the file, a cut file never yields its declared number of records, for every records_per_chunk), truncated_image (addressing model, arbitrary bytes: short file => error or fewer than n records), complete_image, missing_summary; whole-product correspondence on damaged products (error classes of truncated / removed / corrupted files); truncation/missing-file oracle over every record boundary +-1 x rpc",
             "xarray.Dataset's dimension check and promptness are not proved (measured)", "7 C18"),
 }
 
